@@ -19,6 +19,8 @@ from ast import (
 from collections import OrderedDict
 from functools import partial
 from itertools import chain
+from os import path, remove, replace
+from shutil import copymode
 from textwrap import indent
 
 from black import Mode, format_str
@@ -560,8 +562,22 @@ def file(node, filename, mode="a", skip_black=False):
                 string_normalization=False,
             ),
         )
-    with open(filename, mode) as f:
-        f.write(src)
+    # Never truncate the target before the new contents are safely on disk: write a
+    # sibling temporary file, then atomically move it over `filename`.
+    if mode.startswith("a") and path.isfile(filename):
+        with open(filename, "rt") as f:
+            src = f.read() + src
+    tmp_filename = "{}.doctrans.tmp".format(filename)
+    try:
+        with open(tmp_filename, "wt") as f:
+            f.write(src)
+        if path.isfile(filename):
+            copymode(filename, tmp_filename)
+        replace(tmp_filename, filename)
+    except BaseException:
+        if path.isfile(tmp_filename):
+            remove(tmp_filename)
+        raise
 
 
 def function(
